@@ -35,6 +35,7 @@ pub fn prop() -> HistProp {
         mk: |_, _, _| Box::new(C08 { frozen: BTreeMap::new(), boundary_tx: false }),
         extra: None,
         many_batches: 2,
+        zero_arrival: 1,
     }
 }
 
